@@ -26,6 +26,7 @@ import (
 	"time"
 
 	"github.com/superfly/macaroon"
+	"github.com/superfly/macaroon/auth"
 	"github.com/superfly/macaroon/flyio"
 	"github.com/superfly/macaroon/resset"
 	"github.com/superfly/macaroon/tp"
@@ -193,7 +194,13 @@ func (s *tpWrapStore) UserSecretFromRequest(r *http.Request) (string, error) {
 
 // ---- world ----------------------------------------------------------------------------------
 
+// caveat id k>0: an ordinary, distinguishable caveat; id 0: a caveat Macaroon.Add refuses
+// (an attestation wrapped in IfPresent)
 func tpCav(k int) macaroon.Caveat {
+	if k == 0 {
+		u := auth.FlyioUserID(7)
+		return &resset.IfPresent{Ifs: macaroon.NewCaveatSet(&u), Else: resset.ActionAll}
+	}
 	return &macaroon.ValidityWindow{NotBefore: int64(k), NotAfter: tpCavEnd}
 }
 
@@ -539,6 +546,22 @@ func (w *tpWorld) genCavs() []int {
 	cs := make([]int, n)
 	for i := range cs {
 		cs[i] = 1 + w.r.Intn(4) // duplicates on purpose: Macaroon.Add de-duplicates
+	}
+	if w.r.Chance(1, 6) { // a caveat Add refuses: first, in the middle, or last
+		pos := w.r.Intn(n + 1)
+		cs = append(cs[:pos], append([]int{0}, cs[pos:]...)...)
+		switch {
+		case n == 0:
+			w.o.count("cavs.refused.alone")
+		case pos == 0:
+			w.o.count("cavs.refused.first")
+		case pos == n:
+			w.o.count("cavs.refused.last")
+		default:
+			w.o.count("cavs.refused.middle")
+		}
+	} else {
+		w.o.count("cavs.accepted")
 	}
 	return cs
 }
